@@ -7,7 +7,7 @@
    Parametric in HMAC: a one-shot function [hmac] with 32-byte output, and a streaming interface
    with the hypothesis streaming = one-shot (discharged for alg/sha256.c by the hash area, C01). *)
 From Coq Require Import Arith NArith ZArith List Bool Lia.
-From LCP Require Import Base.CheckedMem Gen.Repo_dhdrbg Crypto.DrbgSpec Crypto.DrbgModel.
+From LCP Require Import Base.CheckedMem Gen.Repo_dhdrbg Crypto.DrbgSpec Crypto.DrbgOsSpec Crypto.DrbgModel.
 Import ListNotations.
 Local Open Scope N_scope.
 
@@ -740,7 +740,7 @@ Section Repo.
 End Repo.
 
 (* ---------------- util/entropy.c: entropy_read_fill ---------------- *)
-Definition payload (a : rd_answer) : list N := match a with RdErr => [] | RdBytes l => l end.
+(* [payload] is defined in DrbgOsSpec.v *)
 
 Lemma fill_m_spec : forall (fuel : nat) buflen answers, (N.to_nat buflen <= fuel)%nat ->
   exists res rest used,
